@@ -226,3 +226,10 @@ def main_wrap(fn):
     except MachineryError as e:
         print("MACHINERY-ERROR: %s" % e)
         sys.exit(2)
+    except SystemExit:
+        raise
+    except BaseException as e:            # a bug in the machinery is not a verdict about the code under test
+        import traceback
+        traceback.print_exc()
+        print("MACHINERY-ERROR: %s: %s" % (type(e).__name__, e))
+        sys.exit(2)
